@@ -571,8 +571,44 @@ fn parse(m: &SymModel) -> SymbolFile {
     }
 }
 
-fn run_file(g: &Gen, idx: u64, l: &mut Local) {
-    let (m, shape) = g.model_and_shape(idx);
+/// Second generator: what happens *inside* one FUNC, with every INLINE menu (incl. the nests with
+/// undefined origins and the eight-level nest) and every STACK WIN menu, next to a small choice of
+/// neighbours: f0 at 1|3 size 0|1|3|6 x 8 line tables x N_INL_ALL x N_WIN_ALL x {f1 far behind with its
+/// own sub-records | f1 touching f0's end | f1 inside f0 (overlap: weak promises only)} x PUBLIC
+/// {none | inside f0 | right behind f0}.
+const NEST_F2: u64 = 3;
+const NEST_PUB: [u64; 3] = [0, 3, 7];
+fn nest_radices() -> Vec<u64> {
+    vec![F1_ADDR.len() as u64, F1_SIZE.len() as u64, N_LINES, N_INL_ALL, N_WIN_ALL, NEST_F2, NEST_PUB.len() as u64]
+}
+fn nest_model(idx: u64) -> SymModel {
+    let d = unrank(idx, &nest_radices());
+    let (a1, s1) = (F1_ADDR[d[0] as usize], F1_SIZE[d[1] as usize]);
+    let mut m = SymModel { files: vec![(1, "a.c".into())], origins: vec![(1, "in1".into()), (2, "in2".into())], ..Default::default() };
+    let mut f1 = FuncRec::new(a1, s1, 0x10, "f0");
+    f1.origins_inside = vec![(3, "in3".into())];
+    f1.lines = line_menu(d[2], a1);
+    f1.inlines = inl_menu(d[3], a1);
+    let f2 = match d[5] {
+        0 => {
+            let mut f2 = FuncRec::new(12, 2, 0x20, "f1");
+            f2.lines = vec![LineRec { addr: 12, size: 1, line: 2, file: 1 }];
+            f2.inlines = vec![InlineRec { depth: 0, call_line: 0, call_file: 1, origin: 2, ranges: vec![(12, 2)] }];
+            f2
+        }
+        1 => FuncRec::new(a1 + s1 as u64, 2, 0x20, "f1"),
+        2 => FuncRec::new(a1 + 1, 1, 0x20, "f1"),
+        _ => unreachable!(),
+    };
+    m.funcs = vec![f1, f2];
+    for (k, p) in pub_menu(NEST_PUB[d[6] as usize], a1, s1).into_iter().enumerate() {
+        m.publics.push(PublicRec { addr: p, param: 0x100 + k as u32, name: format!("p{k}") });
+    }
+    m.wins = win_menu(d[4], a1);
+    m
+}
+
+fn run_file(m: SymModel, shape: Vec<i64>, l: &mut Local) {
     let sf = match guard(|| parse(&m)) {
         Ok(s) => s,
         Err(p) => {
@@ -614,7 +650,10 @@ fn run_file(g: &Gen, idx: u64, l: &mut Local) {
 
 fn stackframe_space(thorough: bool) -> Space {
     // one FUNC (4 placements), every line / inline menu, 3 PUBLIC menus; module "m" at 3 bases
-    let radices: Vec<u64> = vec![2, 2, N_LINES, N_INL, 3, if thorough { N_WIN } else { 2 }];
+    // STACK WIN menus: none, from the entry but shorter than the FUNC, FPO at the entry + frame data further in,
+    // starting inside (thorough: all)
+    let wins: Vec<u64> = if thorough { (0..N_WIN_ALL).collect() } else { vec![0, 1, 5, 6] };
+    let radices: Vec<u64> = vec![2, 2, N_LINES, N_INL_ALL, 3, wins.len() as u64];
     let len = product(&radices);
     let model = move |idx: u64| -> SymModel {
         let d = unrank(idx, &radices);
@@ -628,7 +667,7 @@ fn stackframe_space(thorough: bool) -> Space {
         for (k, p) in pub_menu([0, 1, 7][d[4] as usize], a1, s1).into_iter().enumerate() {
             m.publics.push(PublicRec { addr: p, param: 0x100 + k as u32, name: format!("p{k}") });
         }
-        m.wins = win_menu(d[5], a1);
+        m.wins = win_menu(wins[d[5] as usize], a1);
         m
     };
     let model2 = model.clone();
@@ -734,7 +773,26 @@ fn main() {
         def.extra.insert("offsets".into(), json!("-1..=17 relative to the module base (wrapping)"));
         let g = std::sync::Arc::new(Gen::new(thorough));
         let g2 = g.clone();
-        def.spaces.push(Space::new("files", g.len(), move |idx, l| run_file(&g, idx, l), move |idx| json!({"class": "files", "symbol_file": g2.model(idx).to_text()})));
+        def.spaces.push(Space::new(
+            "files",
+            g.len(),
+            move |idx, l| {
+                let (m, shape) = g.model_and_shape(idx);
+                run_file(m, shape, l)
+            },
+            move |idx| json!({"class": "files", "symbol_file": g2.model(idx).to_text()}),
+        ));
+        def.spaces.push(Space::new(
+            "nests",
+            product(&nest_radices()),
+            |idx, l| {
+                // shape = the menu choices themselves, marked so that they cannot coincide with a `files` shape
+                let mut shape: Vec<i64> = vec![-100];
+                shape.extend(unrank(idx, &nest_radices()).into_iter().map(|x| x as i64));
+                run_file(nest_model(idx), shape, l)
+            },
+            |idx| json!({"class": "nests", "symbol_file": nest_model(idx).to_text()}),
+        ));
         def.spaces.push(stackframe_space(thorough));
         def
     })
